@@ -75,6 +75,49 @@ def oracle(g):
     return bad
 
 
+KEY = {'comp': 'comp', 'var': 'var', 'reset': 'reset', 'units': 'units'}
+
+
+def frame(op, prev, cur):
+    """removal, take, replacement or moving of an object affects exactly the objects involved: every object whose record
+    (parent, child lists, equivalences) changed must be one the operation is about"""
+    t = op[1:-1].split()
+    h = t[0]
+    def kids(c, k): return [x for x in prev.get(c, {}).get(k, []) if isinstance(x, int)]
+    def par(x):
+        p = prev.get(x, {}).get('parent', '-')
+        return int(p) if p.isdigit() else None
+    allowed = set()
+    if h in ('ac', 'am', 'av', 'ar', 'au'):
+        c, x = int(t[1]), int(t[2]); k = {'ac': 'comp', 'am': 'comp', 'av': 'var', 'ar': 'reset', 'au': 'units'}[h]
+        allowed = {c, x}
+        p = par(x)
+        if p is not None:
+            allowed.add(p)
+            if x not in kids(p, k): allowed |= set(kids(p, k))
+    elif h == 'ri':
+        c, k, i = int(t[1]), t[2], int(t[3]); l = kids(c, k)
+        allowed = {c} | ({l[i]} if i < len(l) else set())
+    elif h == 'rp':
+        c, k, x = int(t[1]), t[2], int(t[3])
+        allowed = {c, x} if x in kids(c, k) else {c} | set(kids(c, k))
+    elif h in ('rn', 'ra'):
+        c, k = int(t[1]), t[2]; allowed = {c} | set(kids(c, k))
+    elif h in ('ae', 're'):
+        allowed = {int(t[1]), int(t[2])}
+    elif h == 'rae':
+        v = int(t[1]); allowed = {v} | set(x for x in prev.get(v, {}).get('equiv', []) if isinstance(x, int))
+    elif h in ('rc', 'ru'):
+        c, i, x = int(t[1]), int(t[2]), int(t[3]); k = 'comp' if h == 'rc' else 'units'; l = kids(c, k)
+        allowed = {c, x} | ({l[i]} if i < len(l) else set())
+        p = par(x)
+        if p is not None:
+            allowed.add(p)
+            if x not in kids(p, k): allowed |= set(kids(p, k))
+    changed = [x for x in cur if prev.get(x) != cur[x]]
+    return ['%s changed object %d, which it is not about' % (op, x) for x in changed if x not in allowed]
+
+
 def is_readd(op, g):
     """adding an entity to the container that already holds it (outside the claim)"""
     t = op[1:-1].split()
@@ -146,6 +189,10 @@ def run(chk, replay=None):
             if prev is None and False: pass
             if not taint:
                 bad = oracle(g)
+                if prev is not None:
+                    bad += frame(op, prev, g)
+                    if a[1] == '0' and g != prev:
+                        bad.append('%s returned false but changed the object graph' % op)
                 if bad:
                     orafail.append((l, 'after step %d %s: %s' % (k, op, '; '.join(bad[:3])))); break
             if k >= len(ry) or a != ry[k]:
